@@ -55,6 +55,10 @@ def shrink_candidates(record):
             yield cfg_variant(parallel_mode=p2)
     # 3. fewer decisions inside the remaining schedule(s)
     for si, s in enumerate(scheds):
+        if s.get("crash") and isinstance(s["crash"], dict) and s["crash"].get("torn") is not None:
+            s2 = copy.deepcopy(s)
+            s2["crash"]["torn"] = None
+            yield _with(record, schedules=scheds[:si] + [s2] + scheds[si + 1:])
         for key in ("pollution", "clock"):
             if s.get(key):
                 s2 = copy.deepcopy(s)
